@@ -14,9 +14,12 @@ class SPEC:
             "egress (drop / reject), inter-node rejected at ingress, intra-node, to-external} x emptiness patterns of the correlate fields on "
             "either side (plus: both records of a flow in ONE data set, in both orders, encoded by the exporter code and decoded by a collecting process - "
             "the production path), with expiry scans placed after every prefix (deadlines reached by advancing the clock, so unready flows go through the "
-            "retry / drop path) and a dump after every step; plus random mixes. The correlation spec Ipfix.C07.checkShown (ready iff both sides "
+            "retry / drop path) and a dump after every step; plus random mixes; plus a family of records that LACK correlate fields (the two nodes "
+            "export with different templates; value token `~`): every rule-action field absent x every value of the other action, pod-name fields "
+            "absent, every other field absent on the stored record / on the incoming one / on both with the other side's value empty or not, random "
+            "subsets, in both arrival orders, hand-built and through the exporter-collector path, with retries and drops. The correlation spec Ipfix.C07.checkShown (ready iff both sides "
             "seen or no correlation needed; never exported unready; every field non-empty on either side is non-empty in the merged record and "
-            "comes from one of them; filled flag) is evaluated on every exported and dumped record of the implementation. Non-trivial = records "
+            "comes from one of them; the merged record carries a field exactly when one of the two records does; filled flag) is evaluated on every exported and dumped record of the implementation. Non-trivial = records "
             "from both nodes or a retry.")
     assumptions = ["all records of one flow agree on whether correlation is needed (a flow whose records disagree behaves order-dependently; outside 'a flow that needs correlation')"]
     trusted = ["the overlay's mechanical rewrite time.Now() -> verifNow() in pkg/intermediate"]
@@ -48,17 +51,18 @@ EXTRAS = [
 ]
 
 
-def record(kind, side, key, n, extras):
+def record(kind, side, key, n, extras, absent=None):
+    """absent = positions of the correlate fields the record does not carry"""
     k = KINDS[kind]
     stats = [x * n for x in STATS]
     if k["ft"] != 2:
         if kind == "intra":
-            return AG.rec_op(key, 1, AG.corr("podA", "podB"), 100, 100 + n, stats)
-        return AG.rec_op(key, 3, AG.corr("podA", ""), 100, 100 + n, stats)
+            return AG.rec_op(key, 1, AG.corr("podA", "podB", absent=absent), 100, 100 + n, stats)
+        return AG.rec_op(key, 3, AG.corr("podA", "", absent=absent), 100, 100 + n, stats)
     es, ed = extras
     if side == "S":
-        return AG.inter_src(key, 100, 100 + n, stats, ingress=k["ingress"], egress=k["egress"], extra=es)
-    return AG.inter_dst(key, 100, 100 + n, stats, ingress=k["ingress"], egress=k["egress"], extra=ed)
+        return AG.inter_src(key, 100, 100 + n, stats, ingress=k["ingress"], egress=k["egress"], extra=es, absent=absent)
+    return AG.inter_dst(key, 100, 100 + n, stats, ingress=k["ingress"], egress=k["egress"], extra=ed, absent=absent)
 
 
 def gen_cases(rng, tier):
@@ -108,6 +112,152 @@ def gen_cases(rng, tier):
                 ops += ["agg scan %s %d" % (rng.choice(["-", "-", "1", "2"]), rng.choice([0, 1])), "agg dump"]
         cases.append(Case(ops, "random", True, True))
     cases += msg_cases(random.Random(rng.randrange(1 << 30)), tier)
+    cases += absent_cases(random.Random(rng.randrange(1 << 30)), tier)
+    return cases
+
+
+# ---- records that lack correlate fields (the two nodes of a flow export with different templates) ----
+
+# a value for every non-pod correlate field, as the `extra` / ingress / egress arguments of AG.corr
+FULL = dict(src_ns="nsA", src_node="node1", dst_ns="nsB", dst_node="node2", cluster="0a600001", svc_port=443, prio=7,
+            cluster6="fd000000000000000000000000000001")
+FULL2 = dict(src_ns="nsX", src_node="node9", dst_ns="nsY", dst_node="node8", cluster="0a600063", svc_port=8443, prio=9,
+             cluster6="fd0000000000000000000000000000ff")
+ACTIONS = [0, 1, 2, 3]       # none, Allow, Drop, Reject
+
+
+def raw(key, n, src_pod, dst_pod, ingress=0, egress=0, extra=None, absent=(), ft=2):
+    return AG.rec_op(key, ft, AG.corr(src_pod, dst_pod, ingress, egress, extra, absent=list(absent)), 100, 100 + n, [x * n for x in STATS])
+
+
+def session(recs, rng, scans_after=(), via_msg=False, final=True):
+    """recs: `agg rec` ops of one session in order; scans_after: indices after which the clock reaches the active
+    deadline three times with a scan each (retry, retry, drop of a flow that still waits); via_msg: every record
+    travels alone in a data set through exporter encoding and collector decoding"""
+    ops = ["agg new %d %d" % (A, I)]
+    for j, r in enumerate(recs):
+        if via_msg:
+            ops += [AG.msg_op([r], rng.choice([None, rng.randrange(1, 1 << 30)])), "agg dump"]
+        else:
+            ops += [r + (" p%d" % rng.randrange(1, 1 << 30) if rng.random() < 0.3 else ""), "agg dump"]
+        if j in scans_after:
+            for _ in range(3):
+                ops += ["agg adv %d" % A, "agg scan - 0", "agg dump"]
+    if final:
+        ops += ["agg adv %d" % I, "agg scan - 1", "agg dump"]
+    return ops
+
+
+def absent_cases(rng, tier):
+    cases = []
+    thorough = tier != "quick"
+
+    def add(label, recs, **kw):
+        for via_msg in (False, True):
+            cases.append(Case(session(recs, rng, via_msg=via_msg, **kw), "absent-" + label + ("-msg" if via_msg else ""), True, True))
+
+    # 1. a rule-action field is absent: it is not consulted. Every value of the other action, on a source-node and on a
+    #    destination-node first record; alone (ready at once or withheld, retried, dropped), then a record of the other
+    #    node which carries all fields / lacks the same field / lacks the other action
+    for side in "SD":
+        pods = ("podA", "") if side == "S" else ("", "podB")
+        opods = ("", "podB") if side == "S" else ("podA", "")
+        for absent, vals in ([((AG.EGRESS,), [(i, 0) for i in ACTIONS]), ((AG.INGRESS,), [(0, e) for e in ACTIONS]),
+                              ((AG.INGRESS, AG.EGRESS), [(0, 0)]), ((AG.EGRESS, AG.PRIO), [(3, 0), (2, 0)])]):
+            for ingress, egress in vals:
+                first = raw(1, 1, pods[0], pods[1], ingress, egress, FULL, absent)
+                add("action-alone", [first], scans_after=(0,))
+                add("action-alone", [first, raw(1, 2, pods[0], pods[1], ingress, egress, FULL, absent)], scans_after=(1,))
+                for oabsent in ((), absent, (AG.INGRESS,), (AG.EGRESS,)):
+                    for oi, oe in ((ingress, egress), (0, 0), (1, 1)):
+                        second = raw(1, 2, opods[0], opods[1], oi, oe, FULL2, oabsent)
+                        add("action-pair", [first, second, raw(1, 3, pods[0], pods[1], ingress, egress, FULL, absent)],
+                            scans_after=rng.choice([(), (1,), (0,)]))
+                        if thorough or rng.random() < 0.3:
+                            add("action-pair", [second, first], scans_after=rng.choice([(), (1,)]))
+    # 2. pod-name fields absent: without sourcePodName a record is not from the source node (whatever else it says),
+    #    an absent destinationPodName counts as empty
+    shapes = [
+        ("podA", "", (AG.DST_POD,)),      # from source
+        ("", "podB", (AG.SRC_POD,)),      # from destination
+        ("", "", (AG.SRC_POD,)),          # from neither
+        ("", "", (AG.DST_POD,)),          # from neither
+        ("", "", (AG.SRC_POD, AG.DST_POD)),
+        ("", "podB", ()), ("podA", "", ()), ("podA", "podB", (AG.SRC_POD,)), ("podA", "podB", (AG.DST_POD,)),
+    ]
+    for a in shapes:
+        for b in shapes:
+            if not a[2] and not b[2]:
+                continue
+            r1 = raw(1, 1, a[0], a[1], 0, 0, FULL, a[2])
+            r2 = raw(1, 2, b[0], b[1], 0, 0, FULL2, b[2])
+            r3 = raw(1, 3, "podA", "", 0, 0, FULL)
+            add("pod", [r1, r2], scans_after=rng.choice([(), (0,), (1,)]))
+            if thorough or rng.random() < 0.4:
+                add("pod", [r1, r2, r3, raw(1, 4, "", "podB", 0, 0, FULL2)], scans_after=rng.choice([(), (1,), (2,)]))
+    # 3. one field at a time: the stored record lacks it and the other node carries it non-empty / empty; the stored
+    #    record carries it (non-empty / empty) and the other node lacks it; both lack it
+    empty = dict()
+    for pos in AG.NON_POD_POSITIONS:
+        for first_side in "SD":
+            pods = ("podA", "") if first_side == "S" else ("", "podB")
+            opods = ("", "podB") if first_side == "S" else ("podA", "")
+            # rule actions: Allow on either side keeps both records in need of correlation
+            for (fa, fx, fv), (sa, sx, sv) in [(((pos,), FULL, 1), ((), FULL2, 1)), (((pos,), FULL, 1), ((), empty, 0)),
+                                               (((), FULL, 1), ((pos,), FULL2, 1)), (((), empty, 0), ((pos,), FULL2, 1)),
+                                               (((pos,), FULL, 1), ((pos,), FULL2, 1)), (((pos,), empty, 0), ((), empty, 0))]:
+                r1 = raw(1, 1, pods[0], pods[1], fv, fv, fx, fa)
+                r2 = raw(1, 2, opods[0], opods[1], sv, sv, sx, sa)
+                add("field%d" % pos, [r1, r2, raw(1, 3, pods[0], pods[1], fv, fv, fx, fa)], scans_after=rng.choice([(), (), (0,), (1,)]))
+    # 4. random subsets of absent fields on the first record, on the second, on both (same or different positions)
+    kinds = list(KINDS)
+    for _ in range(150 if not thorough else 6000):
+        kind = rng.choice(["inter", "inter", "inter-allow", rng.choice(kinds)])
+        extras = rng.choice([(FULL, FULL2), (FULL, empty), (empty, FULL2), rng.choice(EXTRAS)])
+
+        def subset():
+            return rng.sample(range(AG.N_CORR), rng.choice([0, 1, 1, 2, 3, 6])) if rng.random() < 0.8 else []
+        sa, sb = subset(), subset()
+        if rng.random() < 0.3:
+            sb = list(sa)
+        order = [rng.choice("SD") for _ in range(rng.randint(1, 5))]
+        masks = {"S": sa, "D": sb}
+        recs = [record(kind, side, 1, j + 1, extras, absent=masks[side]) for j, side in enumerate(order)]
+        scans = tuple(j for j in range(len(recs)) if rng.random() < 0.25)
+        add("subset", recs, scans_after=scans)
+    # 5. mixes over three keys; a message holds records that lack the same fields
+    for _ in range(120 if not thorough else 6000):
+        ops = ["agg new %d %d" % (A, I)]
+        kmap = {k: rng.choice(kinds) for k in (1, 2, 3)}
+        xmap = {k: rng.choice([(FULL, FULL2), (FULL, empty), (empty, FULL2), rng.choice(EXTRAS)]) for k in (1, 2, 3)}
+        # per (key, side) a template, i.e. a set of absent fields
+        tmpl = {(k, sd): (rng.sample(range(AG.N_CORR), rng.choice([1, 1, 2, 3])) if rng.random() < 0.6 else []) for k in (1, 2, 3) for sd in "SD"}
+        shared = rng.sample(range(AG.N_CORR), rng.choice([1, 2]))
+        cnt = 0
+        for _ in range(rng.randint(3, 50)):
+            r = rng.random()
+            if r < 0.45:
+                key, side = rng.choice([1, 2, 3]), rng.choice("SD")
+                cnt += 1
+                ops += [record(kmap[key], side, key, cnt, xmap[key], absent=tmpl[(key, side)]), "agg dump"]
+            elif r < 0.6:
+                recs = []
+                mask = rng.choice([shared, [], tmpl[(rng.choice([1, 2, 3]), rng.choice("SD"))]])
+                for _ in range(rng.choice([1, 2, 2, 3])):
+                    key = rng.choice([1, 2, 3])
+                    cnt += 1
+                    recs.append(record(kmap[key], rng.choice("SD"), key, cnt, xmap[key], absent=mask))
+                ops += [AG.msg_op(recs, rng.choice([None, rng.randrange(1, 1 << 30)])), "agg dump"]
+            elif r < 0.8:
+                ops += ["agg adv %d" % rng.choice([1, 50, A, I - A, I]), "agg dump"]
+            else:
+                ops += ["agg scan %s %d" % (rng.choice(["-", "-", "1", "2"]), rng.choice([0, 1])), "agg dump"]
+        cases.append(Case(ops, "absent-random", True, True))
+    # a data set whose records disagree on the fields they carry cannot exist: refused on both sides
+    r1 = raw(1, 1, "podA", "", 0, 0, FULL, (AG.EGRESS,))
+    r2 = raw(2, 2, "", "podB", 0, 0, FULL2, (AG.PRIO,))
+    cases.append(Case(["agg new %d %d" % (A, I), "agg msg " + " + ".join(o[len("agg rec "):] for o in (r1, r2)), "agg dump"],
+                      "absent-mixed-templates", False, True, False))
     return cases
 
 
